@@ -98,9 +98,16 @@ def const_int(n):
         return int(v) if not isinstance(v, str) else int(v)
     if n.get("k") == "ref" and n.get("dk") == "enumc":
         return n.get("v")
-    if n.get("k") == "un" and n.get("op") == "-":
+    if n.get("k") == "un" and n.get("op") in ("-", "+", "~"):
         v = const_int(n["e"])
-        return -v if v is not None else None
+        if v is None:
+            return None
+        return {"-": -v, "+": v, "~": ~v}[n["op"]]
+    if n.get("k") == "bin" and n.get("op") in ("+", "-", "*", "|", "&", "<<"):
+        a, b = const_int(n["x"]), const_int(n["y"])
+        if a is None or b is None:
+            return None
+        return {"+": a + b, "-": a - b, "*": a * b, "|": a | b, "&": a & b, "<<": a << b if 0 <= b < 64 else None}[n["op"]]
     return None
 
 
